@@ -589,3 +589,276 @@ Section Pick.
   Theorem pick_bw_in_bounds : acc_in_bounds (pick_bw sy sx ids dim) (tsize sx) (tsize sy).
   Proof. exact (proj2 (proj2 pick_pair)). Qed.
 End Pick.
+
+(* ================================================================== slice_bw
+   Device::slice_bw: gy and gx agree on every axis but dim (has_same_loo_dims), compatible
+   batches (equal, or one of them 1), and  offset + gy[dim] <= gx[dim]  evaluated in 64 bits
+   (unbounded here; the 32-bit wrap of that sum was defect D-slice_bw, repaired in /repo).
+   R = product of the axes above dim, per sample. Used by BACKWARD(Slice) and BACKWARD(Split). *)
+Lemma bsel_lt_max Bx By b :
+  0 < Bx -> Bx = By \/ Bx = 1 \/ By = 1 -> b < Nat.max Bx By -> bsel Bx b < Bx.
+Proof. unfold bsel. intros H0 Hc Hb. destruct (Nat.ltb_spec 1 Bx); lia. Qed.
+
+Section SliceBw.
+  Variables (sx sy : tshape) (dim off base nx ny R Bx By : nat).
+  Hypothesis Hbase : tlower sx dim = base.
+  Hypothesis Hbasey : tlower sy dim = base.
+  Hypothesis Hnx : tget sx dim = nx.
+  Hypothesis Hny : tget sy dim = ny.
+  Hypothesis Hvx : tvolume sx = base * nx * R.
+  Hypothesis Hvy : tvolume sy = base * ny * R.
+  Hypothesis Hbx : tbatch sx = Bx.
+  Hypothesis Hby : tbatch sy = By.
+  Hypothesis Hcompat : Bx = By \/ Bx = 1 \/ By = 1.
+  Hypothesis HBx : 0 < Bx.
+  Hypothesis HBy : 0 < By.
+  Hypothesis Hoff : off + ny <= nx.
+  Hypothesis Hb0 : 0 < base.
+  Hypothesis Hn0 : 0 < ny.
+
+  Lemma slice_bw_repeat : tvolume sx / (base * nx) = R.
+  Proof. rewrite Hvx. rewrite Nat.mul_comm. apply Nat.div_mul. nia. Qed.
+
+  (* gx[low, j + off, high] of sample b (or the only sample) += gy[low, j, high] of sample b (or the only sample) *)
+  Theorem slice_bw_spec d s :
+    In (d, s) (slice_bw sy sx dim off) <->
+    exists low j high b, low < base /\ j < ny /\ high < R /\ b < Nat.max Bx By /\
+      d = bsel Bx b * (base * nx * R) + flat base nx low (j + off) high /\
+      s = bsel By b * (base * ny * R) + flat base ny low j high.
+  Proof.
+    unfold slice_bw. rewrite Hbase, Hnx, Hny, slice_bw_repeat, Hbx, Hby, In_flat_map2. split.
+    - intros [b [Hb H]]. apply In_flat_map2 in H. destruct H as [i [Hi H]].
+      apply In_map_range in H. destruct H as [j [Hj E]]. injection E as Ed Es. subst d s.
+      destruct (run_split base ny j Hb0 Hj) as [low [jj [Hl [Hjj ->]]]].
+      exists low, jj, i, b. rewrite !bsel_skip, Hbx, Hby, Hvx, Hvy. unfold flat.
+      repeat split; try assumption; ring.
+    - intros [low [j [high [b [Hl [Hj [Hh [Hb [-> ->]]]]]]]]]. exists b. split; [exact Hb|].
+      apply In_flat_map2. exists high. split; [exact Hh|]. apply In_map_range. exists (low + base * j).
+      split; [apply run_lt; assumption|]. rewrite !bsel_skip, Hbx, Hby, Hvx, Hvy. unfold flat. f_equal; ring.
+  Qed.
+
+  Theorem slice_bw_in_bounds : acc_in_bounds (slice_bw sy sx dim off) (tsize sx) (tsize sy).
+  Proof.
+    apply Forall_forall. intros [d s] Hin. cbn [fst snd]. apply slice_bw_spec in Hin.
+    destruct Hin as [low [j [high [b [Hl [Hj [Hh [Hb [-> ->]]]]]]]]].
+    unfold tsize. rewrite Hvx, Hvy, Hbx, Hby. split; apply sample_lt.
+    - apply (bsel_lt_max Bx By); assumption.
+    - apply flat_lt; lia.
+    - apply (bsel_lt_max By Bx); [assumption|lia|lia].
+    - apply flat_lt; lia.
+  Qed.
+
+  (* when gy has the full batch: each of its elements is consumed exactly once, in order *)
+  Section FullGy.
+    Hypothesis Hfold : Bx = By \/ Bx = 1.
+
+    Theorem slice_bw_src_sequential : map snd (slice_bw sy sx dim off) = seq 0 (tsize sy).
+    Proof.
+      unfold slice_bw, tsize. rewrite Hbase, Hnx, Hny, slice_bw_repeat, Hbx, Hby, Hvy.
+      replace (Nat.max Bx By) with By by lia.
+      replace (By * (base * ny * R)) with (By * (R * (base * ny))) by ring.
+      apply (seq_blocks snd By (R * (base * ny)) 0). intros b Hb.
+      apply (seq_blocks snd R (base * ny) (0 + b * (R * (base * ny)))). intros i Hi.
+      apply map_seq_off. intros j Hj. cbn [snd]. rewrite bsel_skip, Hby, (bsel_same By b Hb). ring.
+    Qed.
+
+    Lemma slice_bw_src_NoDup : NoDup (map snd (slice_bw sy sx dim off)).
+    Proof. rewrite slice_bw_src_sequential. apply seq_NoDup. Qed.
+  End FullGy.
+
+  Lemma R_pos_of (high b B : nat) : high < R * B -> 0 < R.
+  Proof. destruct R; lia. Qed.
+
+  (* same batch on both sides: the transpose of slice_fw *)
+  Section SameBatch.
+    Hypothesis Hsame : Bx = By.
+
+    Lemma slice_same_sy : tsize sy = base * ny * (R * By).
+    Proof. unfold tsize. rewrite Hvy, Hby. ring. Qed.
+    Lemma slice_same_sx : tsize sx = base * nx * (R * By).
+    Proof. unfold tsize. rewrite Hvx, Hbx, Hsame. ring. Qed.
+
+    Theorem slice_bw_transpose d s :
+      In (d, s) (slice_bw sy sx dim off) <-> In (s, (0, d)) (slice_fw sx sy dim off).
+    Proof.
+      rewrite slice_bw_spec.
+      rewrite (slice_fw_spec sx sy dim off base nx ny (R * By) Hbasey Hny Hnx slice_same_sy slice_same_sx Hoff Hb0 Hn0).
+      replace (Nat.max Bx By) with By by lia. rewrite Hsame. split.
+      - intros [low [j [high [b [Hl [Hj [Hh [Hb [-> ->]]]]]]]]]. exists low, j, (high + R * b).
+        rewrite (bsel_same By b Hb), !flat_sample.
+        repeat split; try assumption. rewrite (Nat.mul_comm R By). pose proof (sample_lt b By high R Hb Hh). lia.
+      - intros [low [j [high [Hl [Hj [Hh [_ [-> ->]]]]]]]].
+        pose proof (R_pos_of _ 0 _ Hh) as HR. rewrite (Nat.mul_comm R By) in Hh.
+        destruct (sample_split R By high HR Hh) as [b [r [Hb [Hr ->]]]].
+        exists low, j, r, b. rewrite (bsel_same By b Hb).
+        replace (b * R + r) with (r + R * b) by lia. rewrite !flat_sample. auto 10.
+    Qed.
+
+    Theorem slice_pair_same :
+      adjoint_pair (slice_fw sx sy dim off) (slice_bw sy sx dim off) (tsize sy) (tsize sx).
+    Proof.
+      pose proof (slice_fw_spec sx sy dim off base nx ny (R * By) Hbasey Hny Hnx slice_same_sy slice_same_sx Hoff Hb0 Hn0) as Hspec.
+      pose proof (slice_fw_sequential sx sy dim off base nx ny (R * By) Hbasey Hny Hnx slice_same_sy slice_same_sx Hoff Hb0 Hn0) as Hseq.
+      split; [|split; [apply sequential_covers; exact Hseq|exact slice_bw_in_bounds]].
+      apply (transpose_perm _ _ (tsize sy)).
+      - apply sequential_covers. exact Hseq.
+      - mov_forall Hspec. destruct Hin as [low [j [high [_ [_ [_ [-> _]]]]]]]. reflexivity.
+      - apply slice_bw_src_NoDup. left. exact Hsame.
+      - exact slice_bw_transpose.
+    Qed.
+  End SameBatch.
+
+  (* gx has batch 1, gy batch By: every sample b of the forward output is the slice of the ONE
+     sample of x, and the backward folds the By samples of gy onto that sample *)
+  Section Fold.
+    Hypothesis Hone : Bx = 1.
+    Let sy1 := mkT (tdims sy) 1.
+    Let Vy := base * ny * R.
+
+    Lemma slice_fold_sy1 : tsize sy1 = base * ny * R.
+    Proof. unfold tsize, sy1. cbn [tbatch]. change (tvolume (mkT (tdims sy) 1)) with (tvolume sy). rewrite Hvy. lia. Qed.
+    Lemma slice_fold_sx : tsize sx = base * nx * R.
+    Proof. unfold tsize. rewrite Hvx, Hbx, Hone. lia. Qed.
+
+    Theorem slice_bw_transpose_fold d s :
+      In (d, s) (slice_bw sy sx dim off) <->
+      In (s, (0, d)) (share_fw By Vy (slice_fw sx sy1 dim off)).
+    Proof.
+      rewrite slice_bw_spec, share_fw_In.
+      replace (Nat.max Bx By) with By by lia. rewrite Hone. split.
+      - intros [low [j [high [b [Hl [Hj [Hh [Hb [-> ->]]]]]]]]].
+        exists (bsel By b), (flat base ny low j high). split; [apply (bsel_lt_max By Bx); [assumption|lia|lia]|].
+        split; [reflexivity|].
+        apply (slice_fw_spec sx sy1 dim off base nx ny R Hbasey Hny Hnx slice_fold_sy1 slice_fold_sx Hoff Hb0 Hn0).
+        exists low, j, high. rewrite bsel_one. auto 10.
+      - intros [b [d0 [Hb [-> Hin]]]].
+        apply (slice_fw_spec sx sy1 dim off base nx ny R Hbasey Hny Hnx slice_fold_sy1 slice_fold_sx Hoff Hb0 Hn0) in Hin.
+        destruct Hin as [low [j [high [Hl [Hj [Hh [_ [-> ->]]]]]]]].
+        exists low, j, high, b. rewrite bsel_one, (bsel_same By b Hb). auto 10.
+    Qed.
+
+    Theorem slice_pair_fold :
+      adjoint_pair (share_fw By Vy (slice_fw sx sy1 dim off)) (slice_bw sy sx dim off) (tsize sy) (tsize sx).
+    Proof.
+      pose proof (slice_fw_spec sx sy1 dim off base nx ny R Hbasey Hny Hnx slice_fold_sy1 slice_fold_sx Hoff Hb0 Hn0) as Hspec.
+      pose proof (slice_fw_sequential sx sy1 dim off base nx ny R Hbasey Hny Hnx slice_fold_sy1 slice_fold_sx Hoff Hb0 Hn0) as Hseq.
+      rewrite slice_fold_sy1 in Hseq.
+      assert (Hcov : covers (share_fw By Vy (slice_fw sx sy1 dim off)) (tsize sy)).
+      { unfold tsize. rewrite Hby, Hvy. apply sequential_covers. apply share_fw_sequential. exact Hseq. }
+      split; [|split; [exact Hcov|exact slice_bw_in_bounds]].
+      apply (transpose_perm _ _ (tsize sy)).
+      - exact Hcov.
+      - apply share_fw_single. mov_forall Hspec. destruct Hin as [low [j [high [_ [_ [_ [-> _]]]]]]]. reflexivity.
+      - apply slice_bw_src_NoDup. right. exact Hone.
+      - exact slice_bw_transpose_fold.
+    Qed.
+  End Fold.
+End SliceBw.
+
+(* ================================================================== inplace_add
+   Device::inplace_add(x, y): y += x with same dims and compatible batches. It is the backward
+   of copy / reshape / flatten / identity-like operators (gx += gy), x being the incoming
+   gradient gy and y the accumulator gx. *)
+Section InplaceAdd.
+  Variables (sx sy : tshape) (V Bx By : nat).
+  Hypothesis Hvx : tvolume sx = V.
+  Hypothesis Hvy : tvolume sy = V.
+  Hypothesis Hbx : tbatch sx = Bx.
+  Hypothesis Hby : tbatch sy = By.
+  Hypothesis Hcompat : Bx = By \/ Bx = 1 \/ By = 1.
+  Hypothesis HBx : 0 < Bx.
+  Hypothesis HBy : 0 < By.
+
+  Theorem inplace_add_spec d s :
+    In (d, s) (inplace_add sx sy) <->
+    exists b i, b < Nat.max Bx By /\ i < V /\ d = bsel By b * V + i /\ s = bsel Bx b * V + i.
+  Proof.
+    unfold inplace_add. rewrite Hvy, Hbx, Hby, In_flat_map2. split.
+    - intros [b [Hb H]]. apply In_map_range in H. destruct H as [i [Hi E]]. injection E as Ed Es. subst d s.
+      exists b, i. rewrite !bsel_skip, Hbx, Hby. auto.
+    - intros [b [i [Hb [Hi [-> ->]]]]]. exists b. split; [exact Hb|]. apply In_map_range. exists i.
+      split; [exact Hi|]. rewrite !bsel_skip, Hbx, Hby. reflexivity.
+  Qed.
+
+  Theorem inplace_add_in_bounds : acc_in_bounds (inplace_add sx sy) (tsize sy) (tsize sx).
+  Proof.
+    apply Forall_forall. intros [d s] Hin. cbn [fst snd]. apply inplace_add_spec in Hin.
+    destruct Hin as [b [i [Hb [Hi [-> ->]]]]]. unfold tsize. rewrite Hvx, Hvy, Hbx, Hby. split; apply sample_lt.
+    - apply (bsel_lt_max By Bx); [assumption|lia|lia].
+    - exact Hi.
+    - apply (bsel_lt_max Bx By); assumption.
+    - exact Hi.
+  Qed.
+
+  Section FullSrc.
+    Hypothesis Hfold : By = Bx \/ By = 1.
+
+    Theorem inplace_add_src_sequential : map snd (inplace_add sx sy) = seq 0 (tsize sx).
+    Proof.
+      unfold inplace_add, tsize. rewrite Hvy, Hvx, Hbx, Hby.
+      replace (Nat.max Bx By) with Bx by lia.
+      apply (seq_blocks snd Bx V 0). intros b Hb.
+      apply map_seq_off. intros j Hj. cbn [snd]. rewrite bsel_skip, Hbx, (bsel_same Bx b Hb). lia.
+    Qed.
+  End FullSrc.
+
+  (* equal batches: the transpose of the identity movement *)
+  Section SameBatch.
+    Hypothesis Hsame : By = Bx.
+
+    Theorem inplace_add_transpose d s :
+      In (d, s) (inplace_add sx sy) <-> In (s, (0, d)) (identity_pairs (tsize sy)).
+    Proof.
+      rewrite inplace_add_spec, identity_spec. unfold tsize. rewrite Hvy, Hby, Hsame.
+      replace (Nat.max Bx Bx) with Bx by lia. split.
+      - intros [b [i [Hb [Hi [-> ->]]]]]. rewrite (bsel_same Bx b Hb).
+        split; [apply sample_lt; assumption|auto].
+      - intros [Hs [_ ->]]. destruct V as [|V'] eqn:EV; [lia|].
+        destruct (sample_split (S V') Bx s ltac:(lia) Hs) as [b [r [Hb [Hr ->]]]].
+        exists b, r. rewrite (bsel_same Bx b Hb). auto.
+    Qed.
+
+    Theorem inplace_add_pair_same :
+      adjoint_pair (identity_pairs (tsize sy)) (inplace_add sx sy) (tsize sx) (tsize sy).
+    Proof.
+      assert (E : tsize sx = tsize sy) by (unfold tsize; rewrite Hvx, Hvy, Hbx, Hby, Hsame; reflexivity).
+      assert (Hcov : covers (identity_pairs (tsize sy)) (tsize sx)).
+      { rewrite E. apply sequential_covers. apply identity_sequential. }
+      split; [|split; [exact Hcov|exact inplace_add_in_bounds]].
+      apply (transpose_perm _ _ (tsize sx)).
+      - exact Hcov.
+      - apply identity_single.
+      - rewrite inplace_add_src_sequential by (left; exact Hsame). apply seq_NoDup.
+      - exact inplace_add_transpose.
+    Qed.
+  End SameBatch.
+
+  (* accumulator of batch 1, incoming gradient of batch Bx: the forward shared the single sample
+     among Bx output samples; the backward folds them back *)
+  Section Fold.
+    Hypothesis Hone : By = 1.
+
+    Theorem inplace_add_transpose_fold d s :
+      In (d, s) (inplace_add sx sy) <-> In (s, (0, d)) (share_fw Bx V (identity_pairs V)).
+    Proof.
+      rewrite inplace_add_spec, share_fw_In. replace (Nat.max Bx By) with Bx by lia. rewrite Hone. split.
+      - intros [b [i [Hb [Hi [-> ->]]]]]. rewrite bsel_one, (bsel_same Bx b Hb).
+        exists b, i. split; [exact Hb|]. split; [reflexivity|]. apply identity_spec. auto.
+      - intros [b [d0 [Hb [-> Hin]]]]. apply identity_spec in Hin. destruct Hin as [Hd [_ ->]].
+        exists b, d0. rewrite bsel_one, (bsel_same Bx b Hb). auto.
+    Qed.
+
+    Theorem inplace_add_pair_fold :
+      adjoint_pair (share_fw Bx V (identity_pairs V)) (inplace_add sx sy) (tsize sx) (tsize sy).
+    Proof.
+      assert (Hcov : covers (share_fw Bx V (identity_pairs V)) (tsize sx)).
+      { unfold tsize. rewrite Hvx, Hbx. apply sequential_covers. apply share_fw_sequential. apply identity_sequential. }
+      split; [|split; [exact Hcov|exact inplace_add_in_bounds]].
+      apply (transpose_perm _ _ (tsize sx)).
+      - exact Hcov.
+      - apply share_fw_single. apply identity_single.
+      - rewrite inplace_add_src_sequential by (right; exact Hone). apply seq_NoDup.
+      - exact inplace_add_transpose_fold.
+    Qed.
+  End Fold.
+End InplaceAdd.
